@@ -195,6 +195,9 @@ func VerifC17FrameRead() {
 	}
 	if length > int64(S-9) {
 		zzverif.Assert(err != nil && m == nil, "C17.read.short-body-error")
+		// the limit is part of the released protocol: a udp packet of the default size needs a frame
+		// of about 2 KiB, registrations with metadata more
+		zzverif.Assert(err != jsonMsg.ErrMaxMsgLength && err != jsonMsg.ErrMsgLength, "C17.read.frames-up-to-10240-bytes-are-not-refused-for-their-length")
 		zzverif.Assert(c17.unmarshalCalls == 0, "C17.read.short-body-no-decode")
 		zzverif.Reach("C17.read.short-body")
 		return
